@@ -107,23 +107,36 @@ def check_patch(prop, patch, repo="/repo"):
 
 def run(prop, R, seed):
     d = os.path.join(MUTANTS, prop)
-    if not os.path.isdir(d):
-        R.extra["sensitivity"] = {"variants": 0}
-        return
-    patches = sorted(os.path.join(d, f) for f in os.listdir(d) if f.endswith(".patch"))
+    patches = []
+    if os.path.isdir(d):
+        patches += sorted(os.path.join(d, f) for f in os.listdir(d) if f.endswith(".patch"))
+    sd = os.path.join(VERIF, "seeded")
+    if os.path.isdir(sd):
+        for name in sorted(os.listdir(sd)):
+            mp = os.path.join(sd, name, "meta.json")
+            pp = os.path.join(sd, name, "patch.diff")
+            if os.path.exists(mp) and os.path.exists(pp):
+                try:
+                    import json
+                    if json.load(open(mp)).get("property") == prop:
+                        patches.append(pp)
+                except Exception:
+                    pass
     random.Random(seed).shuffle(patches)
     res = []
     for p in patches:
         status, detail, _v = check_patch(prop, p)
-        res.append({"variant": os.path.basename(p), "status": status, "detail": detail})
+        label = os.path.basename(p) if "/seeded/" not in p else "seeded/" + os.path.basename(os.path.dirname(p))
+        res.append({"variant": label, "status": status, "detail": detail[:400]})
         if status == "missed":
-            print("SENSITIVITY-MISS: property=%s variant=%s %s" % (prop, os.path.basename(p), detail))
+            print("SENSITIVITY-MISS: property=%s variant=%s %s" % (prop, label, detail[:300]))
     R.extra["sensitivity"] = {
         "variants": len(res),
         "detected": len([r for r in res if r["status"] == "detected"]),
         "missed": [r for r in res if r["status"] == "missed"],
         "skipped": [r for r in res if r["status"] in ("skipped", "nocompile")],
         "results": res,
+        "note": "each variant is a still-compiling change applied to a scratch copy outside /repo and /verif; the rules are run on facts extracted statically from that copy; hand-written variants expect a named rule, sub-agent changes expect any new violation",
     }
 
 
